@@ -151,6 +151,7 @@ func serve(req *proto.RunReq) (resp *proto.RunResp) {
 		}
 	}
 
+	curBase = req.Args.Base
 	args := &gengo.GeneratorArgs{
 		Globals:            req.Args.Globals,
 		Entrypoint:         req.Args.Entrypoint,
